@@ -8,12 +8,15 @@ package c01
 import (
 	"encoding/json"
 	"fmt"
+	"io"
 	"regexp"
+	"runtime/debug"
 	"sort"
 	"strings"
 
 	"github.com/Syuparn/pangaea/evaluator"
 	"github.com/Syuparn/pangaea/object"
+	"github.com/Syuparn/pangaea/runscript"
 
 	"panmc/internal/core"
 	"panmc/internal/panrun"
@@ -24,7 +27,7 @@ func init() {
 	core.Register(&core.Check{
 		ID:    "C01",
 		Level: "model_checking",
-		Rule: "(a) every own property (Go and native, discovered at run time from every object reachable from the root environment) called through Func#call with every argument tuple (self, a1) over a 60-value pool and (self, a1, a2) over a 12-value pool (thorough: 24), plus 7 kwargs objects on a 12-value pool; " +
+		Rule: "(e) every REPL session of <=3 (thorough 4) lines over a 24-line alphabet fed to the real StartREPL; (a) every own property (Go and native, discovered at run time from every object reachable from the root environment) called through Func#call with every argument tuple (self, a1) over a 60-value pool and (self, a1, a2) over a 12-value pool (thorough: 24), plus 7 kwargs objects on a 12-value pool; " +
 			"(b) every string of <=2 tokens over a 75-spelling token alphabet (joined with and without spaces) and of 3 tokens over 26 token classes (thorough: 3 over 75, 4 over 18), parsed and evaluated as a program, with stdin; " +
 			"(c) x OP y for 23 infix operators over pool^2, prefix operators, x[y], x[y:z], x[y:z:w] over reduced pools through real syntax; " +
 			"(d) 45 producers of unusual values (bodies with return/raise/yield/defer in function, method, iterator, chain, try, eval contexts; every prototype; `_`) x 22 consumer slots; " +
@@ -505,8 +508,54 @@ func sweepSources(c *core.Ctx, judge judgeFn) {
 	})
 }
 
+// (e) REPL sessions: every sequence of <=3 (thorough 4) lines over a line alphabet (mode commands in every
+// spelling, expressions, errors, blank lines), fed to the real runscript.StartREPL
+var replLines = []string{"multi", "single", "multi ", " multi", "\tsingle", "single ", "MULTI", "multi single", "1 + 1", "x := 5", "x", "1 / 0", "(", "", " ", "\t", "nil", "raise _", "defer 1", "return 1", "yield 1", "\"s\".p", "<>.S", "_"}
+
+func runREPL(in string) panrun.Obs {
+	o := panrun.Obs{Kind: "value", Repr: "repl-ended"}
+	func() {
+		defer func() {
+			if p := recover(); p != nil {
+				o = panrun.Obs{Kind: "panic", Panic: fmt.Sprint(p), Stack: string(debug.Stack())}
+			}
+		}()
+		runscript.StartREPL("", strings.NewReader(in), io.Discard)
+	}()
+	return o
+}
+
+func sweepREPL(c *core.Ctx, judge judgeFn) {
+	depth := c.Pick(3, 4)
+	var sessions [][]string
+	var rec func(cur []string)
+	rec = func(cur []string) {
+		if len(cur) > 0 {
+			sessions = append(sessions, append([]string{}, cur...))
+		}
+		if len(cur) == depth {
+			return
+		}
+		for _, l := range replLines {
+			rec(append(cur, l))
+		}
+	}
+	rec(nil)
+	c.Note("repl_sessions", len(sessions))
+	tk.Sharded(c, len(sessions), func(i int) {
+		in := strings.Join(sessions[i], "\n") + "\n"
+		c.Eval(1)
+		if i%2000 == 0 {
+			c.Journal("REPL session " + fmt.Sprintf("%q", in))
+			c.Sample(map[string]interface{}{"mode": "repl session", "stdin": in})
+		}
+		judge("REPL session "+fmt.Sprintf("%q", in), scase{Mode: "repl", Stdin: in}, "", runREPL(in), "repl")
+	})
+}
+
 func run(c *core.Ctx) {
 	judge := newJudge(c)
+	sweepREPL(c, judge)
 	sweepSources(c, judge)
 	sweepTokens(c, judge)
 	sweepProps(c, judge)
@@ -535,6 +584,10 @@ func replay(c *core.Ctx, raw json.RawMessage) {
 	}
 	var s scase
 	json.Unmarshal(raw, &s)
+	if s.Mode == "repl" {
+		judge("REPL session "+fmt.Sprintf("%q", s.Stdin), s, "", runREPL(s.Stdin), "repl")
+		return
+	}
 	o := r.EvalSrc(sourcePrelude+s.Src, s.Stdin)
 	if o.Kind == "value" {
 		o = r.Guard(nil, "", func() object.PanObject { afterUse(r, o.Val); return o.Val })
